@@ -20,7 +20,8 @@ ASSUMPTIONS = ['unittest itself turns SystemExit in a test into an error',
                'world hooks report facts truthfully']
 FLOORS = {'faults_fired': 100, 'tests_after_fault': 100, 'multi_event': 10,
           'buffer_cases': 30, 'child_cases': 5, 'cli_cases': 30,
-          'color_or_progress': 60, 'names_checked': 150}
+          'color_or_progress': 60, 'names_checked': 150,
+          'class_fixture_events': 40}
 BATCH_TIMEOUT = 300
 
 EXCS = ['ValueError', 'KeyError', 'NeedsArgs', 'CustomDerived', 'Chained',
@@ -148,6 +149,10 @@ def make_case(rng, idx, tier):
     elif r < 0.25:
         opts['color'] = opts['progress'] = True
     spec = gen.simple_world(prefix, layers, tbl)
+    if rng.random() < 0.2:
+        # classes run as a unit through the stdlib suite machinery: class
+        # fixtures that raise or skip (result events without startTest)
+        gen.add_unit_nodes(rng, spec)
     # a real process: stdout / stderr are pipes with the interpreter's own
     # encoding and error handler (the in-process recorder accepts any str)
     mode = 'cli' if rng.random() < 0.15 else 'in'
@@ -226,6 +231,8 @@ def run_case(case):
                   if e['k'].startswith('test.') and e['pid'] != parent}
     counters['child_cases'] = 1 if child_pids else 0
     counters['cli_cases'] = 1 if case.get('mode') == 'cli' else 0
+    counters['class_fixture_events'] = sum(
+        1 for e in events if e['k'].startswith('class.'))
     counters['other_python_cases'] = 1 if py else 0
     counters['color_or_progress'] = 1 if (opts.get('color') or
                                           opts.get('progress')) else 0
